@@ -80,6 +80,12 @@ def enumerate_cases(tier):
         for width in range(0, 29):
             for shape in ((128, 4), (256, 8), (128, 1), (256, 2)):
                 yield {"f": "delta", "is64": is64, "width": width, "shape": list(shape), "tier": tier}
+        # a trend under the pattern: the per-block minimum delta is far from zero (timestamps seconds apart in ns, ...)
+        steps = [-3, 2 ** 31 + 5, -(2 ** 31) - 7, 2 ** 40 + 1, -(2 ** 45)] if is64 else [-3, 2 ** 30 + 1, -(2 ** 30) - 1]
+        for step in steps:
+            for width in (0, 1, 7, 8, 13, 16, 24, 28):
+                for shape in ((128, 4), (256, 8)):
+                    yield {"f": "delta", "is64": is64, "width": width, "shape": list(shape), "step": step, "tier": tier}
     for n in range(0, 41, 1 if tier == "thorough" else 5):
         yield {"f": "byte_array", "n": n, "tier": tier}
     for width in range(1, 25):
@@ -329,8 +335,8 @@ def _wfmi(case):
     return n_exec, nt
 
 
-def delta_values(width, count, is64):
-    """Values whose first miniblock needs exactly `width` bits (min delta 0, max delta 2**width - 1)."""
+def delta_values(width, count, is64, step=0):
+    """Values whose first miniblock needs exactly `width` bits (min delta `step`, max delta step + 2**width - 1)."""
     bits = 64 if is64 else 32
     mask = (1 << bits) - 1
     vals = [5]
@@ -340,7 +346,7 @@ def delta_values(width, count, is64):
             d = (i * 7) & ((1 << width) - 1)
             if i == 2:
                 d = 0
-        v = (vals[-1] + d) & mask
+        v = (vals[-1] + d + step) & mask
         vals.append(v)
     half = 1 << (bits - 1)
     return [v - (1 << bits) if v >= half else v for v in vals]
@@ -355,7 +361,7 @@ def _delta(case, tier):
     n_exec, nt = 0, []
     item = 8 if is64 else 4
     for count in counts:
-        vals = delta_values(width, count, is64)
+        vals = delta_values(width, count, is64, case.get("step", 0))
         info = {}
         try:
             body = enc.encode_delta(vals, block_size=block, miniblocks=minis, is64=is64, info=info)
@@ -367,7 +373,8 @@ def _delta(case, tier):
         raw = np.frombuffer(bytes(body) + b"\x00" * 16, dtype=np.uint8).copy()
         arr = np.full((count + 8) * item, GUARD, dtype=np.uint8)
         o = ce.NumpyIO(arr[: count * item])
-        ctx = "delta_binary_unpack(%s, miniblock width %d, block %d/%d, count=%d)" % ("INT64" if is64 else "INT32", width, block, minis, count)
+        ctx = "delta_binary_unpack(%s, miniblock width %d, block %d/%d, count=%d, min delta %d)" % (
+            "INT64" if is64 else "INT32", width, block, minis, count, case.get("step", 0))
         try:
             ce.delta_binary_unpack(ce.NumpyIO(raw), o, longval=is64)
         except Exception as e:
